@@ -17,7 +17,7 @@ FN = ['parsePkgLength', 'parseNumConstant', 'parseString', 'parseNameString', 'n
 class C12(flow.Spec):
     prop = 'C12'
     props_files = ['theories/Props/C12.v', 'theories/Props/C12_examples.v']
-    model_targets = ['theories/Aml/RunC12.vo', 'theories/Aml/ParserProofsTop.vo', 'theories/Aml/ParserTotalTop.vo', 'theories/Aml/ParserTotalCalls.vo', 'theories/Aml/ParserTotalReloc.vo']
+    model_targets = ['theories/Aml/RunC12.vo', 'theories/Aml/ParserProofsTop.vo', 'theories/Aml/ParserTotalTop.vo', 'theories/Aml/ParserTotalCalls.vo', 'theories/Aml/ParserTotalReloc.vo', 'theories/Aml/ParserTotalMerge.vo']
     pkg = 'device/acpi/aml'
     harness = [os.path.join(H, 'zz_verif_c12_test.go'), os.path.join(H, 'zz_verif_amlcommon_test.go')]
     test = 'TestVerifC12$'
@@ -47,7 +47,7 @@ class C12(flow.Spec):
                'parseFieldElements, parseByteList, scope / pkgEnd stacks; skip mode) it is PROVED for every table image, every pool that '
                'satisfies C13\'s R with a live root, valid opcode-table indexes and room for 4 objects per byte, and every fuel, that the '
                'outcome is never Panic and that the returned pool again satisfies R (built on C13\'s append_R / appendAfter_R / newObject_R); '
-               'NOT proved for mergeScopeDirectives and parseDeferredBlocks',
+               'NOT proved for parseDeferredBlocks',
                'C12_parse_total_partial_fuel_first_pass: under the same hypotheses the first pass run with ParseAML\'s own fuel '
                '(parse_fuel = 64 + 8 * table length) RETURNS (no Panic, no OutOfFuel) - incl. the outer loop of parseObjectList: the scope '
                'stack is never deeper than the pkgEnd stack (table fact: a TermList argument is preceded by a PkgLen argument in the row of '
@@ -61,7 +61,14 @@ class C12(flow.Spec):
                're-establish R / valid indexes / slices inside from ANY state that satisfies them (resolveMethodCalls additionally needs - '
                'and keeps - "every pOpIntNamePathOrMethodCall object carries a []byte value", which is not yet derived from the earlier '
                'passes; relocateNamedObjects needs the root at slot 0 to be a ScopeBlock); their fuel is NOT analysed; they are NOT yet chained '
-               'after passes 1-2 because mergeScopeDirectives and parseDeferredBlocks in between are not covered',
+               'after passes 1-2 because parseDeferredBlocks in between is not covered',
+               'C12_parse_total_partial_nopanic_mergeScopeDirectives: mergeScopeDirectives (Find, scopeOf, moveContents, the three frees, the walk '
+               'over the moved objects) never panics from ANY live object of ANY state that satisfies R / valid indexes / slices inside, has a '
+               'parentless live ScopeBlock root at slot 0, and in which every Scope directive of the current table has the shape the first pass '
+               'gives it (name not a name segment; children = a childless object carrying the path as []byte - four-byte paths start with a name '
+               'character, \\ or ^ - and a ScopeBlock); all of these hold again afterwards and only objects below the start object are freed.  '
+               'Key lemma: a lookup started at the directive\'s parent never ends inside the directive\'s subtree, so every append is legal.  '
+               'The shape hypothesis is NOT yet derived from passes 1-2 (checked on concrete runs only); fuel is NOT analysed',
                'the unproved parts of C12_full_parse_total (no Panic / OutOfFuel and R for the later passes, outcome class of load) are covered '
                'by the correspondence of the extracted model (explicit Panic / OutOfFuel outcomes, all passes modelled) with the real parser '
                'and by the harness monitors (outcome class, watchdog, independent link checker, PrettyPrint)',
